@@ -158,7 +158,7 @@ pub fn run(ctx: &Ctx) -> Rep {
     let perm_rate_6 = ctx.pick(1, 4, 1);
     let perm_rate_7 = ctx.pick(1, 8, 1);
     let perms_each = ctx.pick(1, 1, 4);
-    let all_orders5 = ctx.thorough();
+    let all_orders5 = ctx.thorough() || (ctx.leg != "checked" && !ctx.smoke());
     let perms5: Vec<[u8; 8]> = (0..factorial(5)).map(|k| nth_permutation(5, k)).collect();
 
     let s5 = par_subsets::<5, X, _, _>(ctx, unit_stride, mk, |st, c, _| {
